@@ -87,7 +87,7 @@ class RandomStateSpec(Sym):
         return ch
 
     def _vc_havoc(self, name):
-        self.pos = cur().fresh_int('pos')
+        self.pos = cur().fresh_int('pos', size=True)
 
 
 class Chunk(SArr):
@@ -117,7 +117,7 @@ class PrefixSet(Sym):
         return SInt(D(self.p))
 
     def _vc_havoc(self, name):
-        self.p = cur().fresh_int('seen_p')
+        self.p = cur().fresh_int('seen_p', size=True)
 
 
 class CacheDict(Sym):
@@ -218,7 +218,7 @@ class GetSubSeed(Contract):
 
     def _fresh_sub_seeds(self, why):
         vc = cur()
-        return SOpt(vc.fresh('ss_none', z3.BoolSort()), Chunk(vc.fresh_int('ss_start'), vc.fresh_int('ss_n')))
+        return SOpt(vc.fresh('ss_none', z3.BoolSort()), Chunk(vc.fresh_int('ss_start', size=True), vc.fresh_int('ss_n', size=True)))
 
     @property
     def loops(self):
